@@ -22,7 +22,7 @@ func init() {
 	Registry["C09"] = Spec{
 		Fn:          c09,
 		Level:       "exploration",
-		Rule:        "callback histories over {append, reset+append (reuses the backing memory = overwrite in place), return nil unchanged, return nil after emptying the columns (a round without rows), io.EOF without rows, io.EOF with leftover rows, wrapped io.EOF with rows, other error}, initial rows zero or not: exhaustive up to 3 rounds before the terminal step for a fixed list of column sets (zero-copy: fixed-width integers, FixedString, ColRawOf, Bool, Float; copying: String, UUID, LowCardinality, Enum, Array, Map, Nullable) and random longer histories over random column sets from the whole catalogue, x {Disabled, None, LZ4, LZ4HC, ZSTD} x block sizes 1..3000 rows. Oracle: the Data blocks parsed by the reference codec from the bytes copied at Write time must equal [snapshot of the columns at the start of each round] + [one empty terminator] (tail rows on EOF included; nothing after a callback error except an optional Cancel). Non-trivial = >=2 rounds or a tail block; distinct = (history, column set, compression, rows)",
+		Rule:        "callback histories over {append, reset+append (reuses the backing memory), overwrite in place (same row count, no Reset: slice-typed columns and the Values of LowCardinality / Enum written through their exported memory), return nil unchanged, return nil after emptying the columns (a round without rows), io.EOF without rows, io.EOF with leftover rows, wrapped io.EOF with rows, other error}, initial rows zero or not: exhaustive up to 3 rounds before the terminal step for a fixed list of column sets (zero-copy: fixed-width integers, FixedString, ColRawOf, Bool, Float; copying: String, UUID, LowCardinality, Enum, Array, Map, Nullable) and random longer histories over random column sets from the whole catalogue, x {Disabled, None, LZ4, LZ4HC, ZSTD} x block sizes 1..3000 rows. Oracle: the Data blocks parsed by the reference codec from the bytes copied at Write time must equal [snapshot of the columns at the start of each round] + [one empty terminator] (tail rows on EOF included; nothing after a callback error except an optional Cancel). Non-trivial = >=2 rounds or a tail block; distinct = (history, column set, compression, rows)",
 		Assumptions: []string{"snapshots are taken by the harness inside OnInput before it mutates the columns", "Write calls are recorded by copying the bytes at call time"},
 		MinDistinct: 300,
 	}
@@ -37,9 +37,10 @@ const (
 	hWrappedEOF
 	hError
 	hNilBlank // reset the columns and return nil: a round without rows
+	hOverwrite // overwrite the rows in place (same row count, no Reset) through the columns' exported memory
 )
 
-var hNames = []string{"append", "reset+append", "nil-unchanged", "EOF(no rows)", "EOF(leftover rows)", "wrapped-EOF(rows)", "error", "nil-blank-round"}
+var hNames = []string{"append", "reset+append", "nil-unchanged", "EOF(no rows)", "EOF(leftover rows)", "wrapped-EOF(rows)", "error", "nil-blank-round", "overwrite-in-place"}
 
 var errUser = errors.New("verif: user input error")
 
@@ -61,7 +62,7 @@ func findEntry(ts string) *val.Entry {
 func c09(r *core.Run) {
 	var ci int64
 	// exhaustive short histories
-	nonTerm := []int{hAppend, hResetAppend, hNil, hNilBlank}
+	nonTerm := []int{hAppend, hResetAppend, hNil, hNilBlank, hOverwrite}
 	term := []int{hEOFEmpty, hEOFRows, hWrappedEOF, hError}
 	var hists [][]int
 	var rec func(prefix []int, depth int)
@@ -195,6 +196,30 @@ func c09Run(r *core.Run, ci int64, rng *rand.Rand, set []string, hist []int, ini
 			return nil
 		case hNilBlank:
 			reset()
+			return nil
+		case hOverwrite:
+			n := cols[0].col.Col().Rows()
+			if n == 0 {
+				appendRows(rows)
+				return nil
+			}
+			for _, c := range cols {
+				vs := val.GenColumn(rng, c.t, n, val.GenOpt{MaxElem: 2})
+				st, can := c.col.(val.Setter)
+				done := can
+				for i := 0; done && i < n; i++ {
+					done = st.Set(i, vs[i])
+				}
+				if done {
+					r.Count("rounds_overwritten_in_place", 1)
+					continue
+				}
+				// no exported row memory: same number of rows through Reset + Append
+				c.col.Col().Reset()
+				for _, v := range vs {
+					c.col.Append(v)
+				}
+			}
 			return nil
 		case hEOFEmpty:
 			reset()
